@@ -139,12 +139,22 @@ def _sign_survives(ctx: _FixedCtx) -> bool:
 
     Dropping `enable_neg_zero` changes exactly one thing -- the sign of a zero
     *result* -- so the rewrite holds unless the format can reach a zero whose
-    sign the operand does not supply.  There are two such routes.
+    sign the operand does not supply.  There are three such routes.
     """
     # a wrapping overflow lands by ordinal over the signed range, so a negative
     # operand can come back as `+0`
     if isinstance(ctx, MPBFixedContext) and ctx.overflow is OverflowMode.WRAP:
         return False
+    # a saturating overflow lands on the bound itself, sign and all, so a bound
+    # that is a zero of the other side's sign (the `+0` lower bound of an
+    # unsigned format) is a zero a negative operand does not supply
+    if isinstance(ctx, MPBFixedContext) and ctx.overflow in (
+        OverflowMode.SATURATE, OverflowMode.OVERFLOW
+    ):
+        if ctx.neg_maxval.is_zero() and not ctx.neg_maxval.s:
+            return False
+        if ctx.pos_maxval.is_zero() and ctx.pos_maxval.s:
+            return False
     # a special substituted by a zero would take the sign of the *special* that
     # was rounded, which says nothing about the sign of that zero.  A substitute
     # is only consulted where its own rule is off
